@@ -13,7 +13,7 @@ import sys
 import tempfile
 import time
 
-from .. import runner
+from .. import runner, env
 
 PROP = 'C16'
 
@@ -47,7 +47,7 @@ def run(tier, seed, jobs=None):
     bound = 1 if tier == 'quick' else 2
     max_exec = 3000 if tier == 'quick' else 60000
     K = 4 if tier == 'quick' else 24
-    tmp = tempfile.mkdtemp(prefix='wnmc16r.', dir='/dev/shm' if os.access('/dev/shm', os.W_OK) else None)
+    tmp = tempfile.mkdtemp(prefix='wnmc16r.', dir=env.scratch_parent())
     V, vcount = [], {}
     try:
         nsh = max(1, jobs - min(K, 4))
